@@ -48,6 +48,18 @@ func NewIntFunc(decl *ast.FuncDecl, info *types.Info, varInit ...func(types.Obje
 			}
 			return false
 		}
+		// a local that only ever holds constants (the "one result variable, one return" form): `x = c`, `x := c`
+		if as, ok := n.(*ast.AssignStmt); ok && len(as.Lhs) == 1 && len(as.Rhs) == 1 && (as.Tok == token.ASSIGN || as.Tok == token.DEFINE) {
+			if id, isId := as.Lhs[0].(*ast.Ident); isId {
+				obj := info.Defs[id]
+				if obj == nil {
+					obj = info.Uses[id]
+				}
+				if v, isVar := obj.(*types.Var); isVar && v.Parent() != nil && v.Parent() != v.Pkg().Scope() && obj != f.Param {
+					return true // the right-hand side is inspected like any expression
+				}
+			}
+		}
 		switch x := n.(type) {
 		case *ast.AssignStmt, *ast.IncDecStmt, *ast.GoStmt, *ast.DeferStmt, *ast.ForStmt, *ast.RangeStmt, *ast.CallExpr:
 			if ce, ok := x.(*ast.CallExpr); ok {
@@ -213,6 +225,56 @@ func (f *IntFunc) stmt(s ast.Stmt, arg constant.Value) (retVal, error) {
 		return retVal{}, nil
 	case *ast.EmptyStmt:
 		return retVal{}, nil
+	case *ast.DeclStmt:
+		gd, ok := s.Decl.(*ast.GenDecl)
+		if !ok || gd.Tok != token.VAR {
+			return retVal{}, fmt.Errorf("unsupported declaration")
+		}
+		for _, sp := range gd.Specs {
+			vs := sp.(*ast.ValueSpec)
+			for i, id := range vs.Names {
+				obj := f.Info.Defs[id]
+				if obj == nil {
+					continue
+				}
+				if i < len(vs.Values) {
+					v, err := f.expr(vs.Values[i], arg)
+					if err != nil {
+						return retVal{}, err
+					}
+					f.env[obj] = v
+					continue
+				}
+				b, isB := obj.Type().Underlying().(*types.Basic)
+				switch {
+				case isB && b.Info()&types.IsInteger != 0:
+					f.env[obj] = constant.MakeInt64(0)
+				case isB && b.Info()&types.IsBoolean != 0:
+					f.env[obj] = constant.MakeBool(false)
+				default:
+					return retVal{}, fmt.Errorf("local %s of unsupported type", id.Name)
+				}
+			}
+		}
+		return retVal{}, nil
+	case *ast.AssignStmt:
+		if len(s.Lhs) == 1 && len(s.Rhs) == 1 && (s.Tok == token.ASSIGN || s.Tok == token.DEFINE) {
+			if id, isId := s.Lhs[0].(*ast.Ident); isId {
+				obj := f.Info.Defs[id]
+				if obj == nil {
+					obj = f.Info.Uses[id]
+				}
+				if obj != nil && obj != f.Param {
+					v, err := f.expr(s.Rhs[0], arg)
+					if err != nil {
+						return retVal{}, err
+					}
+					f.env[obj] = v
+					return retVal{}, nil
+				}
+			}
+		}
+		return retVal{}, fmt.Errorf("unsupported assignment")
 	}
 	return retVal{}, fmt.Errorf("unsupported statement %T", s)
 }
